@@ -335,8 +335,9 @@ CallSpace(c, maxExtra, withReq, extraKwNames) ==
                      : ks \in SUBSET KW }
              : n \in 0..(Len(c.pos) + maxExtra) }
 
-\* every call any descriptor of the universe may receive (a constant: evaluated once)
-AllCalls == UNION { CallSpace(c, CallMaxExtra, CallsWithReq, CallExtraKw) : c \in Confs }
+\* every call any descriptor of the universe may receive (constants: evaluated once)
+CallSpaceOf == [c \in Confs |-> CallSpace(c, CallMaxExtra, CallsWithReq, CallExtraKw)]
+AllCalls == UNION { CallSpaceOf[c] : c \in Confs }
 
 ParamNames == ToSet(NameOrder)
 \* names a behaviour tries to bind: the signature's own, one foreign name, and (for
@@ -462,7 +463,7 @@ ExitScope(byException) ==
 \* a configurable is called from Python
 Call(c, call) ==
   /\ "Call" \in Enabled
-  /\ c \in reg /\ call \in CallSpace(c, CallMaxExtra, CallsWithReq, CallExtraKw)
+  /\ c \in reg /\ call \in CallSpaceOf[c]
   /\ LET r == CallW(cfg, MkS(okeys, oper, singles, <<>>), c, CurScope, call) IN
      /\ okeys' = r.s.okeys /\ oper' = r.s.oper /\ singles' = r.s.singles
      /\ out' = [op |-> "Call", sel |-> c.sel, pargs |-> call.pargs, ckw |-> call.kw, status |-> r.status, delivered |-> r.delivered, va |-> r.va, kw |-> r.kw,
